@@ -35,13 +35,14 @@ import (
 type c07Case struct {
 	Spec    *synth.Spec      `json:"spec,omitempty"`
 	Routes  *synth.RouteSpec `json:"routes,omitempty"`
-	Profile string           `json:"profile"` // types | sql | routes
-	Cross   bool             `json:"cross"`   // also run the real CLI in separate processes
+	Profile string           `json:"profile"`          // types | sql | routes
+	Cross   bool             `json:"cross"`            // also run the real CLI in separate processes
+	Reload  bool             `json:"reload,omitempty"` // also load the written module several times with the real loader (go/packages parses files concurrently)
 }
 
 func c07Gen(t *rapid.T, r *h.Rec) c07Case {
 	av, onEx, onCl := avoidOpts(r)
-	c := c07Case{Cross: rapid.IntRange(0, 39).Draw(t, "cross") == 0}
+	c := c07Case{Cross: rapid.IntRange(0, 39).Draw(t, "cross") == 0, Reload: rapid.IntRange(0, 29).Draw(t, "reload") == 0}
 	switch rapid.IntRange(0, 5).Draw(t, "profile") {
 	case 0, 1:
 		c.Profile = "sql"
@@ -49,7 +50,7 @@ func c07Gen(t *rapid.T, r *h.Rec) c07Case {
 	case 2:
 		c.Profile = "routes"
 		c.Routes = synth.GenRoutes(t, &synth.RouteOpts{Avoid: av, OnExclude: onEx, OnClass: onCl})
-		c.Cross = false
+		c.Cross, c.Reload = false, false
 	default:
 		c.Profile = "types"
 		o := &synth.Opts{Avoid: av, OnExclude: onEx, OnClass: onCl,
@@ -193,6 +194,11 @@ func c07Check(c c07Case, r *h.Rec) error {
 			return err
 		}
 	}
+	if c.Reload || hasEnumInTwoFiles(c.Spec) {
+		if err := c07RealReloads(c, r); err != nil {
+			return err
+		}
+	}
 	// non-trivial: >= 2 non-root packages, or >= 2 unions
 	nUnions := 0
 	for _, f := range c.Spec.Root().Files {
@@ -211,6 +217,76 @@ func c07Check(c c07Case, r *h.Rec) error {
 			return map[string]any{"profile": c.Profile, "packages": len(c.Spec.Pkgs), "unions": nUnions, "output_hashes": hashes, "cross_process": c.Cross}
 		})
 	}
+	return nil
+}
+
+// hasEnumInTwoFiles: typed constants of one type declared in more than one file of a package.
+func hasEnumInTwoFiles(spec *synth.Spec) bool {
+	for _, p := range spec.Pkgs {
+		where := map[string]string{}
+		for _, f := range p.Files {
+			for _, b := range f.Consts {
+				for _, cs := range b.Specs {
+					for _, ty := range cs.OfType {
+						if ty == "" {
+							continue
+						}
+						if w, ok := where[ty]; ok && w != f.Name {
+							return true
+						}
+						where[ty] = f.Name
+					}
+				}
+			}
+		}
+	}
+	return false
+}
+
+// c07RealReloads loads the written module several times with analysis.LoadSource (go/packages parses the
+// files of a package concurrently, so token positions of different files are not ordered the same way on
+// every load) and compares every output of every target.
+func c07RealReloads(c c07Case, r *h.Rec) error {
+	dir, err := os.MkdirTemp(scratch(), "c07r-")
+	if err != nil {
+		return h.Inconcf("scratch: %v", err)
+	}
+	defer os.RemoveAll(dir)
+	mod := filepath.Join(dir, "go", "src", "verif.test", "org", "proj")
+	file, err := fastload.WriteModule(c.Spec, mod)
+	if err != nil {
+		return h.Inconcf("write module: %v", err)
+	}
+	loads := 4
+	if hasEnumInTwoFiles(c.Spec) {
+		loads = 12
+		r.Class("reload:enum_members_in_two_files")
+	}
+	var first map[string]string
+	for i := 0; i < loads; i++ {
+		devnull, _ := os.OpenFile(os.DevNull, os.O_WRONLY, 0)
+		oldErr := os.Stderr
+		os.Stderr = devnull
+		pkg, lerr := analysis.LoadSource(file)
+		os.Stderr = oldErr
+		devnull.Close()
+		if lerr != nil {
+			return h.Inconcf("the real loader refuses the written module: %v", lerr)
+		}
+		var an *analysis.Analysis
+		if oc := guard(func() { an = analysis.NewAnalysisFromFile(pkg, file) }); oc.Panicked {
+			return nil
+		}
+		outs := c07Outputs(an, gopathRoot(c.Spec))
+		if first == nil {
+			first = outs
+			continue
+		}
+		if d := diffOutputs(first, outs); d != "" {
+			return h.Violf("two loads of the same module with the real loader give different output (load %d): %s\n%s", i+1, d, clip(c.Spec.Text(), 3000))
+		}
+	}
+	r.Add("real_loader_reloads", loads)
 	return nil
 }
 
@@ -326,7 +402,7 @@ func c07Routes(c c07Case, r *h.Rec, R int) error {
 func TestC07(t *testing.T) {
 	h.Main(t, h.Prop[c07Case]{
 		ID: "C07", ConfirmTries: 12,
-		Rule: "rapid programs of the types profile (>= 1 union, several imported user packages, generics, aliases), the sql profile (with directives) and the routes profile; each is analysed and generated 8 times in one process (half on a shared load, half on fresh loads) for gounions, randdata, sqlcrud (sets on/off), sql, typescript types, dart (all files) or the Axios client, comparing every output text and the set of output files; 1 program in 40 is also run three times through the real CLI (go build of cmd, -config mode with a _dart entry, PATH holding only `go`) as separate processes, comparing every written file; " +
+		Rule: "rapid programs of the types profile (>= 1 union, several imported user packages, generics, aliases), the sql profile (with directives) and the routes profile; each is analysed and generated 8 times in one process (half on a shared load, half on fresh loads) for gounions, randdata, sqlcrud (sets on/off), sql, typescript types, dart (all files) or the Axios client, comparing every output text and the set of output files; 1 program in 40 is also run three times through the real CLI (go build of cmd, -config mode with a _dart entry, PATH holding only `go`) as separate processes, comparing every written file; 1 program in 30, and every program whose enum members are spread over two files (12 loads instead of 4), is also loaded repeatedly with the real analysis.LoadSource, whose parser works concurrently, comparing all outputs; " +
 			"non-trivial = a program with >= 2 non-root packages, >= 2 unions, a sql model or a route file; distinct by SHA-256 of the source",
 		Assumes: []string{
 			"Go's per-iteration randomised map order plays the scheduler: a dependence on the order of k >= 2 map entries survives 8 runs with probability <= 2^-7",
